@@ -12,6 +12,7 @@ from .. import treecheck
 from ..treeprop import DROP_ASC, DROP_DESC, GC_DROP, HOLD_ASC, HOLD_DESC, TreeProp
 
 QUICK = [
+    ("S4", DROP_ASC, 2, "RETYPE"),
     ("S7", DROP_ASC, 1, "DELCORE"),
     ("S1", DROP_ASC, 2, "FULL"),
     ("S2", HOLD_DESC, 1, "FULL"),
@@ -21,6 +22,8 @@ QUICK = [
     ("S1r", HOLD_DESC, 2, "EDIT"),
 ]
 THOROUGH = [
+    ("S4", DROP_ASC, 3, "RETYPE"),
+    ("S4", HOLD_DESC, 3, "RETYPE"),
     ("S7", DROP_ASC, 2, "DELCORE"),
     ("S1", DROP_ASC, 3, "FULL"),
     ("S2", HOLD_DESC, 2, "FULL"),
